@@ -16,7 +16,8 @@ def _handler(sig, frm):
 
 def _arm():
     if _STACK:
-        signal.setitimer(signal.ITIMER_REAL, max(0.001, min(_STACK) - time.time()))
+        # repeating: if one Timeout is swallowed somewhere (a bare except, a C callback) another follows
+        signal.setitimer(signal.ITIMER_REAL, max(0.001, min(_STACK) - time.time()), 0.5)
     else:
         signal.setitimer(signal.ITIMER_REAL, 0)
 
